@@ -30,6 +30,7 @@ func init() {
 			{Name: "version-check-dropped", File: "bfe_config/bfe_route_conf/host_rule_conf/host_table_load.go", Old: "	if conf.Version == nil {\n		return errors.New(\"no Version\")\n	}\n\n	if conf.Hosts == nil {", New: "	if conf.Hosts == nil {", Expect: "nil-deref"},
 			{Name: "check-not-called", File: "bfe_config/bfe_route_conf/host_rule_conf/host_table_load.go", Old: "	// check config\n	if err := HostTableConfCheck(*conf); err != nil {\n		return \"\", err\n	}\n", New: "", Expect: "check-before-use"},
 			{Name: "check-error-dropped", File: "bfe_route/server_data_conf.go", Old: "	if err := s.check(); err != nil {\n		return nil, fmt.Errorf(\"ServerDataConf.check Error %s\", err)\n	}", New: "	s.check()", Expect: "closure"},
+			{Name: "defaults-not-written-back", File: "bfe_config/bfe_cluster_conf/cluster_conf/cluster_conf_load.go", Old: "		conf[clusterName] = clusterConf\n", New: "", Expect: "copy-write-back"},
 			{Name: "gslb-weight-nil", File: "bfe_config/bfe_cluster_conf/cluster_conf/cluster_conf_load.go", Old: "	if conf.RetryMax == nil {", New: "	if conf.RetryMax == nil && conf.CrossRetry != nil {", Expect: "nil-deref"},
 		},
 	})
@@ -302,6 +303,117 @@ func runC13(c *core.Ctx) {
 		c.Check("closure", "LoadServerDataConf:check-gates-success", ld.Pos(), ok, "LoadServerDataConf must return a conf only after ServerDataConf.check() returned nil")
 	}
 
+	// ---- (b') the two representations of a basic rule carry the same target --------------------
+	// convertBasicRule fills the per-product rule list (read by ServerDataConf.check) and the
+	// lookup tree (read by routing); both must receive the file's ClusterName untransformed,
+	// otherwise check() validates a name routing never uses.
+	if cb := c.P.Func("bfe_config/bfe_route_conf/route_rule_conf", "convertBasicRule"); cb == nil {
+		c.Missing("route_rule_conf.convertBasicRule")
+	} else if cn != nil {
+		c.Analysed(core.FuncKey(cb))
+		n := 0
+		for _, st := range core.FieldStores([]*ssa.Function{cb}, cn) {
+			n++
+			v := core.StripConv(st.Store.Val)
+			plain := false
+			if u, ok := v.(*ssa.UnOp); ok && u.Op == token.MUL {
+				if ov, ok := classifyOpt(u.X); ok && strings.HasSuffix(ov.key, "BasicRouteRuleFile.ClusterName") {
+					plain = true
+				}
+			}
+			c.Check("basic-rule-agree", fmt.Sprintf("convertBasicRule:list#%d", n), st.Store.Pos(), plain, "the ClusterName put into the per-product basic rule list is "+core.Render(v)+", not the file's ClusterName itself; the lookup tree is built from the file value, so the cross-reference check and routing can disagree about the target")
+		}
+		ins := core.Calls(cb, "bfe_config/bfe_route_conf/route_rule_conf.BasicRouteRuleTree.Insert")
+		c.Check("basic-rule-agree", "convertBasicRule:tree", cb.Pos(), len(ins) == 1 && n >= 1, fmt.Sprintf("expected one list store and one tree insert per basic rule, found %d and %d", n, len(ins)))
+		if it := c.P.Func("bfe_config/bfe_route_conf/route_rule_conf", "BasicRouteRuleTree.Insert"); it != nil {
+			okArg := false
+			for _, ci := range core.AllCalls(it) {
+				if strings.HasSuffix(core.CalleeKey(ci.Common()), "pathTrees.insert") {
+					a := ci.Common().Args[len(ci.Common().Args)-1]
+					okArg = core.Render(a) == "ruleConf.ClusterName"
+				}
+			}
+			c.Check("basic-rule-agree", "BasicRouteRuleTree.Insert:cluster", it.Pos(), okArg, "the tree must store the rule file's ClusterName itself")
+		}
+	}
+	// ---- (c') defaults assigned through a copy are written back ------------------------------------
+	// A *Check function that fills defaults through a pointer to the range copy of a map element
+	// (map of struct values) must store the copy back, or the defaults never reach the table.
+	nwb := 0
+	for _, fn := range all {
+		if !strings.HasPrefix(core.FuncPkgRel(fn), "bfe_config/") {
+			continue
+		}
+		for _, in := range allInstrs(fn) {
+			nx, ok := in.(*ssa.Next)
+			if !ok {
+				continue
+			}
+			rg, ok := nx.Iter.(*ssa.Range)
+			if !ok {
+				continue
+			}
+			mt, ok := rg.X.Type().Underlying().(*types.Map)
+			if !ok {
+				continue
+			}
+			if _, isStruct := mt.Elem().Underlying().(*types.Struct); !isStruct {
+				continue
+			}
+			// the value copy is spilled to an Alloc whose address is passed to a call
+			for _, x := range allInstrs(fn) {
+				st, ok := x.(*ssa.Store)
+				if !ok {
+					continue
+				}
+				ex, ok := st.Val.(*ssa.Extract)
+				if !ok || ex.Tuple != ssa.Value(nx) || ex.Index != 2 {
+					continue
+				}
+				al, ok := st.Addr.(*ssa.Alloc)
+				if !ok {
+					continue
+				}
+				passed := false
+				for _, r := range *al.Referrers() {
+					if ci, isCall := r.(ssa.CallInstruction); isCall {
+						for _, a := range ci.Common().Args {
+							if a == ssa.Value(al) {
+								passed = true
+							}
+						}
+					}
+				}
+				if !passed {
+					continue
+				}
+				nwb++
+				// on every path from the spill to the next iteration / a success return the copy is stored back
+				bad := core.ReachAvoiding(fn, st, func(y ssa.Instruction) bool {
+					mu, ok := y.(*ssa.MapUpdate)
+					if !ok || core.Render(mu.Map) != core.Render(rg.X) {
+						return false
+					}
+					u, ok := mu.Value.(*ssa.UnOp)
+					return ok && u.X == ssa.Value(al)
+				}, func(y ssa.Instruction) bool {
+					if y == ssa.Instruction(nx) {
+						return true
+					}
+					r, isR := y.(*ssa.Return)
+					if !isR {
+						return false
+					}
+					rv := core.RetVals(r)
+					return len(rv) == 0 || isNilConst(rv[len(rv)-1])
+				})
+				c.Check("copy-write-back", core.FuncKey(fn), st.Pos(), bad == nil, core.FuncKey(fn)+" passes the address of the range copy of a "+core.TypeStr(rg.X.Type())+" element to a callee (which may assign defaults) and can continue without storing the copy back into the map: defaults for omitted sections are lost and later dereferences crash")
+			}
+		}
+	}
+	if nwb == 0 {
+		c.Check("copy-write-back", "sites", token.NoPos, false, "no range-copy-passed-by-address site found (ClusterToConfCheck was the reviewed instance)")
+	}
 	// ---- (c) nil before dereference -------------------------------------------------------------------
 	// facts from *Check functions
 	fieldFact := map[string]string{}
